@@ -48,9 +48,11 @@ def gen(rng, tier):
         ops = (set(common.PAST_OPS) | {'eventually_b', 'always_b', 'until_b', 'unless_b', 'next'}) - {'log'} if future else set(common.PAST_OPS)   # log: F08
     for _ in range(100):
         ast = sg.gen_formula(rng, sg.GenCfg(vars=vars_, ops=ops, max_depth=rng.randint(3, 5), max_bound=rng.choice([2, 4]),
-                                            p_reuse=rng.choice([0.1, 0.3]), p_loose=rng.choice([0.08, 0.25])))
+                                            p_reuse=rng.choice([0.1, 0.3]), p_loose=rng.choice([0.08, 0.25]), p_near=rng.choice([0.0, 0.0, 0.5])))
         if sg.size(ast) >= 4 and sg.vars_of(ast):
             break
+    if rng.random() < 0.12:
+        ast = sg.add_near_duplicate(rng, ast)      # two requirements that differ in a late decimal of one constant
     defs, top = sg.modularize(rng, ast, max_subs=3)
     extra = None
     if rng.random() < 0.3:
